@@ -601,6 +601,8 @@ def c07_plan(tier, seed):
     nchain = 10 if q else 80
     for i in range(nchain):
         p = preset()
+        if p["MAX_EFFECTIVE_BALANCE"] < 1000:      # rewards/penalties of a real chain wipe out such tiny balances
+            p["MAX_EFFECTIVE_BALANCE"], p["EFFECTIVE_BALANCE_INCREMENT"] = 32000, 1000
         altair = rng.choice([-1, 0, 1, 2, 2, 3, 4])
         later = -1
         if altair >= 0 and rng.random() < 0.5:
@@ -619,7 +621,11 @@ def record_committees(plan, name="rec", binary=None):
     p = lib.run([binary, "record", pp, ep], timeout=1800)
     if p.returncode != 0:
         raise lib.InfraError("committees record failed: %s" % (p.stdout + p.stderr)[-3000:])
-    return [l for l in open(ep).read().splitlines() if l.strip()]
+    lines = [l for l in open(ep).read().splitlines() if l.strip()]
+    kept = [l for l in lines if not l.startswith('{"ev":"Skipped"') and not l.startswith('{"ev":"Failed"')]
+    record_committees.skipped = sum(1 for l in lines if l.startswith('{"ev":"Skipped"'))
+    record_committees.failed = [json.loads(l) for l in lines if l.startswith('{"ev":"Failed"')]
+    return kept
 
 
 def validate_committee_trace(lines, name, deviations, diagnose=False, timeout=2400):
@@ -699,6 +705,7 @@ def c07_code_to_spec(tier, seed, cov, binary=None, plan=None):
         covs.update(o[3])
     events = [json.loads(l) for l in lines]
     cov["recorded_states"] = len(events)
+    cov["skipped_degenerate_states"] = getattr(record_committees, "skipped", 0)
     cls = cov["trace_classes"] = cov.get("trace_classes") or {}
 
     def bump(k, n=1):
@@ -745,6 +752,11 @@ def c07_code_to_spec(tier, seed, cov, binary=None, plan=None):
                 bump("proposer_loop_3_or_more_iterations")
             if c["syncIters"] > e["P"]["SYNC_COMMITTEE_SIZE"]:
                 bump("sync_loop_rejected_a_candidate")
+    notes = [e["note"]["count_for_uncovered_epoch"] for e in events if e.get("note", {}).get("count_for_uncovered_epoch")]
+    if any(n.startswith("panic") for n in notes):
+        cov["observation_outside_C07"] = ("GetCommitteeCountPerSlot(epoch not covered by the context) panics instead of returning "
+                                          "its error (%d states): %s -- see out/proposed_fixes/shuffle-1.diff" % (len(notes), notes[0][:120]))
+        lib.log("observation (outside C07, no verdict): " + cov["observation_outside_C07"])
     cov["evaluations"] += sum(len(e["epcs"]) * (3 * e["P"]["SLOTS_PER_EPOCH"] * 2 + e["P"]["SLOTS_PER_EPOCH"] + 2) + 1 for e in events)
     dist = {lib.digest([e["vals"], e["slot"], e["epcs"][0]["comms"], e["epcs"][0]["proposers"]]) for e in events}
     cov["distinct_behaviours"] += len(dist)
@@ -752,6 +764,11 @@ def c07_code_to_spec(tier, seed, cov, binary=None, plan=None):
     cov["samples"] += [{"slot": e["slot"], "fork": e["fork"], "vals": e["vals"][:6], "proposers": e["epcs"][0]["proposers"],
                         "state_sync_next": e["state_sync_next"]} for e in events[:1] + events[-1:]]
     viol = []
+    for fe in getattr(record_committees, "failed", [])[:3]:
+        it = [p for p in plan if p["chain"] == fe["chain"]]
+        viol.append(("trace", {"kind": "trace", "plan": it, "failing": ["construction"]},
+                     "zrnt failed while the %s state of plan item %d was built / advanced (genesis, upgrade, ProcessSlots, "
+                     "NewEpochsContext): %s" % (fe["kind"], fe["chain"], fe["note"]["error"][:600])))
     if devs:
         byname = {}
         for d, idx in devs:
@@ -829,3 +846,112 @@ def c07_main(tier, seed, replay=None):
     viol = c07_spec_to_code(tier, seed, cov)
     viol += c07_code_to_spec(tier, seed, cov)
     return finish("C07", tier, seed, cov, viol, t0, tier)
+
+
+# ====================================================================== binding self-test
+
+
+def _mutate(root, rel, old, new):
+    p = os.path.join(root, rel)
+    s = open(p).read()
+    if s.count(old) < 1:
+        raise lib.InfraError("selftest: pattern not found in %s" % rel)
+    open(p, "w").write(s.replace(old, new, 1))
+
+
+def selftest():
+    """Demonstrates that the bindings of C06 / C07 can fail: corrupted traces are rejected by the trace specifications,
+    a dropped event is noticed, and canned code mutations in a scratch copy of the tree produce mismatches in the
+    replayers.  Returns a dict of named boolean results; raises InfraError if any is False."""
+    out = {}
+    rng = random.Random(5)
+    # ---- C06 trace spec
+    plan = [{"n": n, "rounds": r, "seed": [rng.randrange(256) for _ in range(32)], "offset": 100}
+            for n, r in ((9, 3), (300, 2), (40, 10))]
+    lines = record_shuffle(plan, "st")
+    ok, bad, _ = validate_trace("ShuffleTrace", lines, "st-clean")
+    out["c06_clean_trace_accepted"] = ok
+    e = json.loads(lines[1])
+    e["shuffled"][5], e["shuffled"][6] = e["shuffled"][6], e["shuffled"][5]
+    ok, bad, _ = validate_trace("ShuffleTrace", [lines[0], json.dumps(e), lines[2]], "st-swap")
+    out["c06_swapped_output_rejected_at_line_2"] = (not ok) and bad == 1
+    e = json.loads(lines[2])
+    e["hs"][4][0][1] = [b ^ 0xFF for b in e["hs"][4][0][1]]   # a digest the code did not see: every coin of round 4 flips
+    ok, bad, _ = validate_trace("ShuffleTrace", [lines[0], lines[1], json.dumps(e)], "st-digest")
+    out["c06_changed_digest_rejected_at_line_3"] = (not ok) and bad == 2
+    e = json.loads(lines[0])
+    e["unperm"][0], e["unperm"][1] = e["unperm"][1], e["unperm"][0]
+    ok, bad, _ = validate_trace("ShuffleTrace", [json.dumps(e)], "st-unperm")
+    out["c06_wrong_inverse_rejected"] = (not ok) and bad == 0
+    e = json.loads(lines[1])
+    e["hs"][0][1][0][36] = 9         # wrong window number in a logged pre-image: harness error, not a verdict
+    try:
+        validate_trace("ShuffleTrace", [json.dumps(e)], "st-layout")
+        out["c06_wrong_preimage_layout_is_infra_error"] = False
+    except lib.InfraError:
+        out["c06_wrong_preimage_layout_is_infra_error"] = True
+    # ---- C06 replayer with a canned mutation
+    _, _, cases = run_shuffle_job(("st-emit", cfg_text(shuffle_constants(MaxN=3, MaxR=2, Emit="TRUE"), "Init", "Next",
+                                                       SHUFFLE_THEOREMS, "EmitCase"), 2, 900, True))
+    res = replay_shuffle_cases(cases, "st-clean")
+    out["c06_replay_clean_tree_no_mismatch"] = not res["mismatches"]
+    root = scratch_repo_copy("selftest-repo")
+    _mutate(root, "eth2/beacon/common/shuffle.go", "mirror := (pivot + 1) >> 1", "mirror := pivot >> 1")
+    res = replay_shuffle_cases(cases, "st-mut", build_against(root, "shuffle"))
+    out["c06_replay_mutant_mirror_detected"] = bool(res["mismatches"])
+    # ---- C07 trace spec
+    P = {"SLOTS_PER_EPOCH": 4, "MAX_COMMITTEES_PER_SLOT": 2, "TARGET_COMMITTEE_SIZE": 2, "SHUFFLE_ROUND_COUNT": 3,
+         "MAX_EFFECTIVE_BALANCE": 32000, "EFFECTIVE_BALANCE_INCREMENT": 1000, "SYNC_COMMITTEE_SIZE": 8,
+         "EPOCHS_PER_HISTORICAL_VECTOR": 8, "MIN_SEED_LOOKAHEAD": 1, "EPOCHS_PER_SYNC_COMMITTEE_PERIOD": 2}
+    cplan = [{"kind": "mutated", "chain": 1, "P": P, "nvals": 20, "fork": "phase0", "epoch": 5, "slot_off": 1,
+              "upgrade": True, "seed": 11},
+             {"kind": "chain", "chain": 2, "P": P, "nvals": 16, "altair": 2, "later": -1, "epochs": 6, "seed": 13}]
+    cl = record_committees(cplan, "st")
+    bad, _, devs, _ = validate_committee_trace(cl, "st-clean", set())
+    out["c07_clean_trace_accepted"] = bad is None and not devs
+    e = json.loads(cl[0])
+    e["epcs"][0]["proposers"][1] = (e["epcs"][0]["proposers"][1] + 1) % 20
+    bad, _, _, _ = validate_committee_trace([json.dumps(e)] + cl[1:], "st-prop", set())
+    out["c07_wrong_proposer_rejected_at_line_1"] = bad == 0
+    e = json.loads(cl[3])
+    c0 = e["epcs"][0]["comms"][2][0][0]
+    c0[0], c0[-1] = c0[-1], c0[0]
+    if len(set(c0)) > 1:
+        bad, _, _, _ = validate_committee_trace(cl[:3] + [json.dumps(e)] + cl[4:], "st-comm", set())
+        out["c07_permuted_next_epoch_committee_rejected_at_line_4"] = bad == 3
+    evs = [json.loads(l) for l in cl]
+    rot = [i for i, x in enumerate(evs) if x["boundary"] == "rotate"]
+    if not rot:
+        raise lib.InfraError("selftest: no rotate boundary recorded")
+    # drop the event recorded at the period boundary: the next event's stored committees no longer follow from the history
+    dropped = cl[:rot[0]] + cl[rot[0] + 1:]
+    bad, _, _, _ = validate_committee_trace(dropped, "st-drop", set())
+    out["c07_dropped_boundary_event_noticed"] = bad == rot[0]
+    e = json.loads(cl[rot[0]])
+    e["state_sync_next"] = e["state_sync_cur"]
+    for a in e["epcs"]:
+        a["sync_next"] = e["state_sync_cur"]
+    bad, _, _, _ = validate_committee_trace(cl[:rot[0]] + [json.dumps(e)], "st-sync", set())
+    out["c07_unrotated_stored_sync_committee_rejected"] = bad == rot[0]
+    # ---- C07 replayer with a canned mutation
+    _, _, ccases = run_committee_job(("st-gen", cfg_text({"MaxV": 10, "GenSeed": 3, "NCases": 2, "Emit": "TRUE"},
+                                                         "InitB", "NextB", ["InvB"]), 2, 900, True))
+    res = replay_committee_cases(ccases, "st-clean")
+    out["c07_replay_clean_tree_no_mismatch"] = not res["mismatches"]
+    _mutate(root, "eth2/beacon/common/proposers.go", "effectiveBalance*0xff >= spec.MAX_EFFECTIVE_BALANCE*Gwei(randomByte)",
+            "effectiveBalance*0xff > spec.MAX_EFFECTIVE_BALANCE*Gwei(randomByte)")
+    res = replay_committee_cases(ccases, "st-mut", build_against(root, "committees"))
+    out["c07_replay_mutant_acceptance_boundary_detected"] = bool(res["mismatches"])
+    shutil.rmtree(root, ignore_errors=True)
+    failed = [k for k, v in out.items() if not v]
+    for k, v in out.items():
+        lib.log("selftest shuffle/committees: %-55s %s" % (k, "ok" if v else "FAILED"))
+    if failed:
+        raise lib.InfraError("binding self-test failed: %s" % failed)
+    return out
+
+
+if __name__ == "__main__":
+    import sys
+    if sys.argv[1:] == ["selftest"]:
+        selftest()
